@@ -22,6 +22,22 @@ def run(ctx):
         ctx.violation({'check': 'C16', 'kind': kind, 'family': r['family']},
                       'scenario %s: %s; first unexplained event %s; uncounted=%s twice=%s' % (r['scenario'], r['invariant'] or 'not a behaviour of ProxyServer.tla', r['event'], uncounted, twice),
                       r)
+    # panics confined to one connection (child process): the victim is counted once all the same, with the labels known when it panicked
+    PANIC_BAG = {'getcertificate': {'ok=0,proto=': 1, 'ok=1,proto=h2': 1, 'ok=1,proto=http/1.1': 2},      # panic during the handshake
+                 'connstate-h2': {'ok=1,proto=h2': 2, 'ok=1,proto=http/1.1': 2},                          # panic inside ServeConn of a completed h2 connection
+                 'connstate-h1': {'ok=1,proto=h2': 1, 'ok=1,proto=http/1.1': 3}}                          # panic on the internal server's accept path (HTTP/1.1)
+    npanic = 0
+    for sc in report:
+        if sc['family'] == 'panic' and not sc.get('error') and sc.get('child_metrics') is not None and sc.get('survived'):
+            got = {}
+            for m in sc['child_metrics']:
+                k, v = m.rsplit(' ', 1)
+                got[k] = int(float(v))
+            want = PANIC_BAG.get(sc['point'])
+            npanic += 1
+            if want is not None and got != want:
+                ctx.violation({'check': 'C16', 'kind': 'labels_after_panic', 'callback': sc['point']},
+                              'panic scenario %s (control h1, victim, control h1, control h2): requests_total is %s, expected %s' % (sc['point'], got, want), sc)
     nconn = 0
     for sc in report:
         if sc['family'] == 'panic':
@@ -37,7 +53,7 @@ def run(ctx):
                           'scenario %s: %d connections, requests_total sums to %s' % (sc['name'], sc['conns'], sum(reg.values())), sc)
     cov = {'traces_validated_against_impl': len(accepted), 'samples': [{'trace_prefix': lc.sample_trace(lines)}],
            'scenarios': [s['name'] for s in report if s['family'] != 'panic'], 'connections': nconn, 'events': len(lines),
-           'registries_compared': len([s for s in report if s['family'] != 'panic']),
+           'registries_compared': len([s for s in report if s['family'] != 'panic']), 'panic_scenarios_with_labels_checked': npanic,
            'rule': 'one trace per scenario: a concurrent multiset of client scripts (kinds drawn at random, aborts at random byte offsets), cancellation at the end or at a '
                    'constructed state; accepted iff every event is an enabled step and CountedOnce / TrueLabels / FailedMeansZero hold in every state'}
     return ctx.finish(cov, assumptions=['the counted hook runs on the connection goroutine and is attributed through the goroutine id recorded at conn.start',
